@@ -819,14 +819,14 @@ func c3Pointers(c *Ctx) {
 			}
 			atoms := AtomStrings(Guards(r))
 			if callee.Name() == "nilField" {
-				nilOK = len(atoms) == 1 && atoms[0] == val.Name()+" == nil" && call.Call.Args[0] == ssa.Value(fn.Params[0])
+				nilOK = len(atoms) == 1 && atoms[0] == PN(val)+" == nil" && call.Call.Args[0] == ssa.Value(fn.Params[0])
 				continue
 			}
 			csig := callee.Type().(*types.Signature)
 			u, isLoad := call.Call.Args[1].(*ssa.UnOp)
 			valOK = csig.Params().Len() == 2 && types.Identical(csig.Params().At(1).Type(), pt.Elem()) &&
 				isLoad && u.Op == token.MUL && u.X == ssa.Value(val) && call.Call.Args[0] == ssa.Value(fn.Params[0]) &&
-				callee.Name()+"p" == fo.Name() && len(atoms) == 1 && atoms[0] == val.Name()+" != nil"
+				callee.Name()+"p" == fo.Name() && len(atoms) == 1 && atoms[0] == PN(val)+" != nil"
 			detail += " delegates to " + callee.Name() + "(" + TypeName(csig.Params().At(1).Type()) + ")"
 		}
 		c.Check(nilOK && valOK, "R3.2", name, "nil-or-deref", fn.Pos(), "returns nilField(key) exactly under nil and otherwise the value constructor of %s applied to *val (%s)", TypeName(pt.Elem()), strings.TrimSpace(detail))
@@ -1628,12 +1628,12 @@ func ptrHelperShape(h *ssa.Function) bool {
 		}
 		atoms := AtomStrings(GuardsOfBlock(r.Block()))
 		if f := CalleeFunc(call); f != nil && f.Name() == "nilField" {
-			nilOK = len(atoms) == 1 && atoms[0] == val.Name()+" == nil" && call.Call.Args[0] == ssa.Value(key)
+			nilOK = len(atoms) == 1 && atoms[0] == PN(val)+" == nil" && call.Call.Args[0] == ssa.Value(key)
 			continue
 		}
 		if call.Call.Value == ssa.Value(ctor) && len(call.Call.Args) == 2 {
 			u, isLoad := call.Call.Args[1].(*ssa.UnOp)
-			valOK = call.Call.Args[0] == ssa.Value(key) && isLoad && u.Op == token.MUL && u.X == ssa.Value(val) && len(atoms) == 1 && atoms[0] == val.Name()+" != nil"
+			valOK = call.Call.Args[0] == ssa.Value(key) && isLoad && u.Op == token.MUL && u.X == ssa.Value(val) && len(atoms) == 1 && atoms[0] == PN(val)+" != nil"
 			continue
 		}
 		return false
